@@ -1508,6 +1508,14 @@ class Interp:
     def std_call(self, e, env, c):
         nm, op = c.get("name"), c.get("op")
         args = e.get("args", [])
+        if "numeric_limits<double>" in str(c.get("cls", "")) and "obj" not in e and not args:
+            # the characteristic constants of the floating-point format, as named positive / infinite constants
+            if nm in ("epsilon", "min", "denorm_min", "max"):
+                return sp.Symbol("DBL_" + nm.upper(), positive=True)
+            if nm == "lowest":
+                return -sp.Symbol("DBL_MAX", positive=True)
+            if nm == "infinity":
+                return sp.oo
         if "obj" in e:
             objr = self.evl(e["obj"], env)
             v = self.load(objr) if isinstance(objr, Ref) and objr.kind in ("var", "field") else objr
@@ -1576,7 +1584,7 @@ class Interp:
             if nm == "copysign" and len(args) == 2:
                 x_, y_ = self.ev(args[0], env), self.ev(args[1], env)
                 if isinstance(x_, sp.Basic) and isinstance(y_, sp.Basic):
-                    return sp.Abs(x_) * sp.Function("sgn")(y_)
+                    return sp.Abs(x_) * sp.sign(y_)      # (b = 0 gives 0 here, +|a| in C++: a set of measure zero)
                 raise Unsupported("std::copysign of non-scalars")
             if nm in ("abs", "fabs"):
                 return sp.Abs(self.ev(args[0], env))
@@ -1960,6 +1968,8 @@ class Interp:
         return r
 
     def case_decide(self, c):
+        if c.has(sp.Indexed) or any(not x.is_integer for x in c.free_symbols):
+            return None          # a test on data values, not an index / size guard
         loopvars = [fr for fr in self.loop_stack if fr["var"] in c.free_symbols and not fr.get("comp_var")]
         if not loopvars:
             size_case = self.case.get("size")
